@@ -477,9 +477,17 @@ impl BitDepth {
                 let is_signed = (sample & (1u32 << (bits_per_sample - 1))) != 0;
                 let mantissa = sample & mantissa_mask;
                 let exp = ((sample & exp_mask) >> mantissa_bits) as i32;
+                if exp == 0 && exp_bits < 8 {
+                    // Zero and subnormal values of formats narrower than `f32`:
+                    // mantissa * 2^(1 - bias - mantissa_bits), which is a normal `f32`.
+                    let bias = (1i32 << (exp_bits - 1)) - 1;
+                    let scale_exp = 1 - bias - mantissa_bits as i32;
+                    let scale = f32::from_bits(((scale_exp + 127) as u32) << 23);
+                    let value = mantissa as f32 * scale;
+                    return if is_signed { -value } else { value };
+                }
                 let exp = exp - ((1 << (exp_bits - 1)) - 1);
 
-                // TODO: handle subnormal values.
                 let f32_mantissa_bits = f32::MANTISSA_DIGITS - 1;
                 let mantissa = match mantissa_bits.cmp(&f32_mantissa_bits) {
                     std::cmp::Ordering::Less => mantissa << (f32_mantissa_bits - mantissa_bits),
